@@ -5,6 +5,11 @@
 //! stdin : one case per line,
 //!         `script=2,1 panics=1.0,2.1 [bombs=1.0] sched=random|pct3|dfs seed=123 iters=500 [spur=K|inf]`
 //!         (`bombs`: calls that panic with a payload whose own `Drop` panics)
+//!         `state=plain|w3|a16|a64`: the captured state of the task closure: one
+//!         pointer (default), three words, or ONE over-aligned value
+//!         (`#[repr(align(16))]` / `align(64)`) carrying a position-dependent
+//!         pattern, which every call verifies (`C.<t>.<i>.s` = the state seen
+//!         by the call is not the captured one)
 //!         `vec=fresh|clear|append|pre<k>.<c>`: the result vector handed to
 //!         `par_extend`: a fresh one per broadcast (default), ONE vector
 //!         cleared before every broadcast (what `bench_loop_threaded` does with
@@ -63,6 +68,117 @@ impl Drop for Bomb {
     }
 }
 
+/// Captured state of the task closure.  The WHOLE capture is one value, so the
+/// closure (and the `TaskShared<F>` it is stored in) inherits its alignment:
+/// the offset of the closure inside the task block then differs from the
+/// offset in the type-erased `TaskShared<()>`.
+const PAT: u64 = 0x5EED_0000_C0DE_0000;
+
+trait TaskState: Copy + Send + Sync + 'static {
+    fn new(ctx: &'static Ctx) -> Self;
+    /// The context, if the position-dependent pattern is intact.
+    fn check(&self) -> Option<&'static Ctx>;
+}
+
+macro_rules! task_state {
+    ($name:ident, $align:literal, $n:literal) => {
+        #[repr(C, align($align))]
+        #[derive(Clone, Copy)]
+        struct $name {
+            ctx: &'static Ctx,
+            pat: [u64; $n],
+        }
+        impl TaskState for $name {
+            fn new(ctx: &'static Ctx) -> Self {
+                let mut pat = [0u64; $n];
+                for (k, w) in pat.iter_mut().enumerate() {
+                    *w = PAT + k as u64;
+                }
+                Self { ctx, pat }
+            }
+            #[inline(never)]
+            fn check(&self) -> Option<&'static Ctx> {
+                // the pattern first: `ctx` is only trusted if it is intact
+                for k in 0..$n {
+                    let w = unsafe { std::ptr::addr_of!(self.pat[k]).read_volatile() };
+                    if w != PAT + k as u64 {
+                        return None;
+                    }
+                }
+                Some(self.ctx)
+            }
+        }
+    };
+}
+task_state!(StW3, 8, 2); // three words: the control
+task_state!(StA16, 16, 5);
+task_state!(StA64, 64, 7);
+
+#[derive(Clone, Copy)]
+struct StPlain(&'static Ctx);
+impl TaskState for StPlain {
+    fn new(ctx: &'static Ctx) -> Self {
+        StPlain(ctx)
+    }
+    fn check(&self) -> Option<&'static Ctx> {
+        Some(self.0)
+    }
+}
+
+#[derive(Clone, Copy, PartialEq)]
+enum StateMode {
+    Plain,
+    W3,
+    A16,
+    A64,
+}
+
+/// The task: verifies its captured state, then logs the call and returns /
+/// panics as the case prescribes.
+fn task_of<S: TaskState>(st: S) -> impl Fn(usize) -> usize + Sync + Send {
+    move |i: usize| -> usize {
+        // The state is read out of the task block (the closure lives there)
+        // BEFORE the scheduling point; the window between a worker's `recv`
+        // and its call is real.
+        let Some(ctx) = st.check() else {
+            // Not the state that was captured: the pool ran something else
+            // than the task.  Nothing read through it can be trusted, and
+            // returning would let `par_extend` write through a bogus pointer.
+            log(format!("C.{}.{}.s", sched_std::tid(), i));
+            sched_std::block_forever();
+        };
+        shuttle_engine::runtime::thread::switch();
+        if !sched_std::block_alive(ctx.b) {
+            // The task block of this broadcast is gone (only a broken pool
+            // gets here): say so and stop before touching it again.
+            log(format!("C.{}.{}.x", sched_std::tid(), i));
+            sched_std::block_forever();
+        }
+        let bomb = ctx.bombs.contains(&(ctx.b, i));
+        let p = bomb || ctx.panics.contains(&(ctx.b, i));
+        log(format!("C.{}.{}.{}", sched_std::tid(), i, p as u8));
+        if bomb {
+            std::panic::resume_unwind(Box::new(Bomb));
+        }
+        if p {
+            // No panic hook, no message.
+            std::panic::resume_unwind(Box::new(()));
+        }
+        i
+    }
+}
+
+/// `par_extend` with the given task; true = left by an escaping panic.
+fn extend<F: Sync + Fn(usize) -> usize>(pool: &ThreadPool, v: &mut Vec<Option<usize>>, n: usize, f: F) -> bool {
+    // `par_extend` stores `{ ptr, f }` behind the header of `TaskShared`
+    // (padding included in the size).
+    sched_std::set_closure_words(1 + (std::mem::size_of_val(&f) + 7) / 8);
+    // A panic may escape `broadcast` (a caught payload whose destructor
+    // panics): it is an outcome like any other, the trace goes on and the
+    // workers run on.  `Z` = left by an escaping panic, `T` = returned.
+    catch_unwind(AssertUnwindSafe(|| pool.par_extend(v, n, f))).is_err()
+}
+
 /// How the result vector is managed across the broadcasts of a script.
 #[derive(Clone, Copy, PartialEq)]
 enum VecMode {
@@ -78,6 +194,7 @@ fn body(
     panics: &Arc<HashSet<(usize, usize)>>,
     bombs: &Arc<HashSet<(usize, usize)>>,
     vmode: VecMode,
+    smode: StateMode,
 ) {
     sched_std::reset(); // registers the main task as thread 0
     let pool = ThreadPool::new();
@@ -112,37 +229,12 @@ fn body(
         let old_len = old.len();
 
         let ctx: &'static Ctx = Box::leak(Box::new(Ctx { b, panics: Arc::clone(panics), bombs: Arc::clone(bombs) }));
-        let f = move |i: usize| -> usize {
-            // `ctx` is read out of the task block (the closure lives there)
-            // BEFORE the scheduling point; the window between a worker's
-            // `recv` and its call is real.
-            let ctx: &'static Ctx = ctx;
-            shuttle_engine::runtime::thread::switch();
-            if !sched_std::block_alive(ctx.b) {
-                // The task block of this broadcast is gone (only a broken pool
-                // gets here): say so and stop before touching it again.
-                log(format!("C.{}.{}.x", sched_std::tid(), i));
-                sched_std::block_forever();
-            }
-            let bomb = ctx.bombs.contains(&(ctx.b, i));
-            let p = bomb || ctx.panics.contains(&(ctx.b, i));
-            log(format!("C.{}.{}.{}", sched_std::tid(), i, p as u8));
-            if bomb {
-                std::panic::resume_unwind(Box::new(Bomb));
-            }
-            if p {
-                // No panic hook, no message.
-                std::panic::resume_unwind(Box::new(()));
-            }
-            i
+        let escaped = match smode {
+            StateMode::Plain => extend(&pool, &mut *v, n, task_of(StPlain::new(ctx))),
+            StateMode::W3 => extend(&pool, &mut *v, n, task_of(StW3::new(ctx))),
+            StateMode::A16 => extend(&pool, &mut *v, n, task_of(StA16::new(ctx))),
+            StateMode::A64 => extend(&pool, &mut *v, n, task_of(StA64::new(ctx))),
         };
-        // `par_extend` stores `{ ptr, f }` behind the header of `TaskShared`.
-        sched_std::set_closure_words(1 + (std::mem::size_of_val(&f) + 7) / 8);
-
-        // A panic may escape `broadcast` (a caught payload whose destructor
-        // panics): it is an outcome like any other, the trace goes on and the
-        // workers run on.  `Z` = left by an escaping panic, `T` = returned.
-        let escaped = catch_unwind(AssertUnwindSafe(|| pool.par_extend(&mut *v, n, f))).is_err();
 
         // Vector discipline (G = guard events, only logged when violated):
         // len <= capacity, exactly n + 1 new slots, old elements untouched.
@@ -248,6 +340,7 @@ struct Case {
     bombs: HashSet<(usize, usize)>,
     sched: Sched,
     vmode: VecMode,
+    smode: StateMode,
     seed: u64,
     iters: usize,
     /// Spurious wake-ups allowed per execution (None = unbounded).
@@ -261,6 +354,7 @@ fn parse(line: &str) -> Case {
         bombs: HashSet::new(),
         sched: Sched::Random,
         vmode: VecMode::Fresh,
+        smode: StateMode::Plain,
         seed: 0,
         iters: 100,
         spur: None,
@@ -312,6 +406,15 @@ fn parse(line: &str) -> Case {
                     }
                 }
             }
+            "state" => {
+                c.smode = match v {
+                    "plain" => StateMode::Plain,
+                    "w3" => StateMode::W3,
+                    "a16" => StateMode::A16,
+                    "a64" => StateMode::A64,
+                    _ => panic!("bad state {v}"),
+                }
+            }
             "seed" => c.seed = v.parse().expect("seed"),
             "iters" => c.iters = v.parse().expect("iters"),
             "spur" => c.spur = Some(if v == "inf" { None } else { Some(v.parse().expect("spur")) }),
@@ -360,6 +463,7 @@ fn run_chunk(
     panics: Arc<HashSet<(usize, usize)>>,
     bombs: Arc<HashSet<(usize, usize)>>,
     vmode: VecMode,
+    smode: StateMode,
 ) -> Result<usize, String> {
     let h = std::thread::Builder::new()
         .name("hx-sched-runner".into())
@@ -376,12 +480,12 @@ fn run_chunk(
                             // silent, except for std's non-unwinding precondition
                             // panics (the process aborts right after)
                             let s = info.to_string();
-                            if s.contains("unsafe precondition") {
+                            if s.contains("unsafe precondition") || s.contains("misaligned pointer") {
                                 eprintln!("hx-sched: {}", s.replace('\n', " "));
                             }
                         }))
                     });
-                    body(&script, &panics, &bombs, vmode)
+                    body(&script, &panics, &bombs, vmode, smode)
                 };
                 match sched {
                     Sched::Random => {
@@ -429,7 +533,7 @@ fn replay(line: &str) -> String {
         // the same prefix and the first schedule of PCT hardly depends on the
         // seed, so those two stop at their first failure.
         let seed = case.seed.wrapping_add(all.len() as u64);
-        let r = run_chunk(case.sched, spur, seed, remaining, Arc::clone(&script), Arc::clone(&panics), Arc::clone(&bombs), case.vmode);
+        let r = run_chunk(case.sched, spur, seed, remaining, Arc::clone(&script), Arc::clone(&panics), Arc::clone(&bombs), case.vmode, case.smode);
         let failure = r.as_ref().err().map(|m| classify(m));
         sched_std::finish(failure);
         let mut new = sched_std::take_finished();
